@@ -211,6 +211,12 @@ class _Guard(object):
             if touches_repo(e.__traceback__):
                 raise RepoCrash("%s: %s | item %r | %s" % (type(e).__name__, str(e)[:200], repr(x)[:300], "".join(traceback.format_tb(e.__traceback__)[-4:])[-900:]))
             raise
+        except BaseException as e:
+            # a BaseException (UnmodelledRandomness, SystemExit ...) would kill the pool worker silently and leave the parent
+            # waiting for ever: hand it back as an ordinary exception so that the run ends with HARNESS-ERROR at once
+            if isinstance(e, KeyboardInterrupt):
+                raise
+            raise RuntimeError("worker stopped with %s: %s | item %r" % (type(e).__name__, str(e)[:200], repr(x)[:200]))
 
 
 def pool_map(fn, items, procs=None, chunksize=1):
